@@ -203,7 +203,7 @@ fn sop() -> impl Strategy<Value = SOp> {
 fn strat(_tier: Tier) -> BoxedStrategy<Case> {
     prop_oneof![
         5 => sop().prop_map(|op| Case::Op { op }),
-        1 => (prop_oneof![text_case_mix(120), line_case(30, true)], 0usize..4).prop_map(|(case, radius)| Case::Text { case, radius }),
+        1 => (prop_oneof![4 => text_case_mix(120), 4 => line_case(30, true), 1 => big_line_case(130)], 0usize..4).prop_map(|(case, radius)| Case::Text { case, radius }),
     ]
     .boxed()
 }
